@@ -50,7 +50,12 @@ MANIFEST = dict(
                 "check found: such a handler used to stay registered until unrelated tunnel traffic), and at the level of the select loop: "
                 "after a pass in which the tunnel was readable (every handler of that end gets its callback, with any per-socket "
                 "behaviour) no handler with both writers shut and empty buffers is still marked alive "
-                "(C02_pass_notices_finished). "
+                "(C02_pass_notices_finished); and the property's last sentence as a theorem: in every reachable alive world, if none of the "
+                "loop's own moves changes it - delivering the next frame in either direction, a callback of any handler on either "
+                "end with every socket ready - then the world is Quiet (C02_no_stuck_state, from callback_fixpoint: a handler on "
+                "which a fully-ready callback is the identity is not connecting, has both buffers empty, nothing to read and every "
+                "shut flag passed on), hence complete (C02_stuck_is_complete). The real loop's rest states are checked against exactly "
+                "that hypothesis on every run: at quiescence every listed handler gets one fully-ready callback and nothing may change. "
                 "The model is replayed against the real classes on every run with close-order scenarios; teardown within "
                 "bounded work and absence of stuck states are checked on the real code by the real-loop drain oracle (real ssnet.runonce "
                 "passes with the environment's actual readiness)."),
